@@ -1,7 +1,7 @@
 """C02 — No spurious rebuilds (target.go, function.go, sourceFile.go, project.go, project_index.go)."""
 import build_common
 
-RULE = ("histories as for C01 with the probe template: build L (must succeed) → only edits that change no input of L's closure (timestamp touch, same-content rewrite, comment, whitespace, docstring, helper-module comment, edits to sources and to other packages' build files outside the closure) → build L in a fresh process, pinned to one CPU or with the parallel runner and loader. Judge: the second build executes no body and evaluates no target (apart from `always` targets and what depends on them) and succeeds. Correspondence as for C01. Probes may contain a garbage collection between the two builds. Round 2: targets whose sources come from glob() with `**` patterns in the root package and in sub-packages; shared-source templates (build B; edit the shared source, build only A, revert, build A, build B — or build A under -B, build B): B must not run again. Round 3: file, directory and generated-file names with spaces, quotes, backslashes, %, +, #, non-ASCII and invalid UTF-8 bytes (D27), picked up by globs and by explicit sources; stream build.keys: the persisted form of a dependency key (escapeLabel/unescapeLabel of the real engine, `-` before the repair) against the model's escapeKey/unescapeKey. D32: the list edits of C01 (reorder / repeat an entry of sources=, deps=, generates=) are changes of the target, never no-op edits; they occur among the edits outside the probed closure. Round 4: about one target in ten refers to the global LATE, which the build file assigns BELOW the targets (forward reference); watch-mode sequences on one loaded project (Run(Always) | Run(nil) | REPL always=True, then Reload(), then Run(nil)): the run after a successful run and a Reload of the unchanged project executes nothing and is not forced; edits of a file behind a symbolic link count as edits of the directory that holds the link.")
+RULE = ("histories as for C01 with the probe template: build L (must succeed) → only edits that change no input of L's closure (timestamp touch, same-content rewrite, comment, whitespace, docstring, helper-module comment, edits to sources and to other packages' build files outside the closure) → build L in a fresh process, pinned to one CPU or with the parallel runner and loader. Judge: the second build executes no body and evaluates no target (apart from `always` targets and what depends on them) and succeeds. Correspondence as for C01. Probes may contain a garbage collection between the two builds. Round 2: targets whose sources come from glob() with `**` patterns in the root package and in sub-packages; shared-source templates (build B; edit the shared source, build only A, revert, build A, build B — or build A under -B, build B): B must not run again. Round 3: file, directory and generated-file names with spaces, quotes, backslashes, %, +, #, non-ASCII and invalid UTF-8 bytes (D27), picked up by globs and by explicit sources; stream build.keys: the persisted form of a dependency key (escapeLabel/unescapeLabel of the real engine, `-` before the repair) against the model's escapeKey/unescapeKey. D32: the list edits of C01 (reorder / repeat an entry of sources=, deps=, generates=) are changes of the target, never no-op edits; they occur among the edits outside the probed closure. Round 4: about one target in ten refers to the global LATE, which the build file assigns BELOW the targets (forward reference); watch-mode sequences on one loaded project (Run(Always) | Run(nil) | REPL always=True, then Reload(), then Run(nil)): the run after a successful run and a Reload of the unchanged project executes nothing and is not forced; edits of a file behind a symbolic link count as edits of the directory that holds the link. Round 5: entries whose names END in a byte that is not valid UTF-8 (`caf\\xe9`) or consist of one such byte (`\\xff`), inside source directories (reachable through the directory and through `d0/**`).")
 
 
 def run(c):
